@@ -175,6 +175,8 @@ impl RK4 {
             for i in 0..n {
                 y[i] += h * (B1 * k1[i] + B2 * k2[i] + B3 * k3[i] + B4 * k4[i]);
             }
+            // keep the slope at the left end of the step for the Hermite interpolant
+            k2.copy_from_slice(&k1);
             f.ode(x, &y, &mut k1);
 
             evals.ode += 4;
@@ -185,7 +187,7 @@ impl RK4 {
             if (self.dense_output || event) && solout.is_some() {
                 cont[0..n].copy_from_slice(&yt);
                 for i in 0..n {
-                    cont[n + i] = k4[i];
+                    cont[n + i] = k2[i];
                     cont[2 * n + i] = k1[i];
                 }
                 cont[3 * n..4 * n].copy_from_slice(&y);
